@@ -212,7 +212,12 @@ def cache_keys(ctx, rule='A8'):
     for side in ('src', 'tgt'):
         comps = [c for _, v, _, _ in sl.origins(rets[-1].value, node) if v is not None for c in ast.walk(v)
                  if isinstance(c, (ast.ListComp, ast.GeneratorExp)) and norm(c.generators[0].iter) == f'self.{side}']
-        if not comps:
+        maps = [c for _, v, _, _ in sl.origins(rets[-1].value, node) if v is not None for c in ast.walk(v)
+                if isinstance(c, ast.Call) and call_name(c) == 'map' and len(c.args) == 2 and
+                norm(c.args[1]) == f'self.{side}' and isinstance(c.args[0], ast.Name) and c.args[0].id in ('repr', 'str')]
+        for c in maps:
+            used.add((side, '__repr__' if c.args[0].id == 'repr' else '__str__'))
+        if not comps and not maps:
             raise AnalysisError(f'get_cache_key: rendering of self.{side} not found')
         for c in comps:
             var = norm(c.generators[0].target)
